@@ -9402,6 +9402,7 @@ class SVG(Group):
                         s.render(ppi=ppi, width=width, height=height)
                         if reify:
                             s.reify()
+                        degenerate = s.is_degenerate()
                     except ValueError as e:
                         # A length that cannot be resolved (e.g. em units without a font size) is an error as well.
                         if on_error == "raise":
@@ -9409,7 +9410,7 @@ class SVG(Group):
                         if on_error == "stop":
                             return root
                         continue
-                    if s.is_degenerate():
+                    if degenerate:
                         continue
                     if context is not None:
                         context.append(s)
